@@ -11,7 +11,7 @@ RULE = ('message dicts over the encoding domain (fixed text of any length: trunc
         'an independent reading of the reference bytes; non-trivial = distinct message with at least one element')
 EXHAUSTIVE = {'thorough': True}
 ASSUMPTIONS = ['integers are in-width and non-negative (an over-wide integer is a caller error outside every property)',
-               'DE43_* keys come from the regex engine and are not compared']
+               'DE43_* entries are compared with the regex model (pattern translated on every run) and, for the packaged pattern, with an independent non-regex reading']
 
 
 def enc_value(rng, c, codec, over=False):
@@ -99,12 +99,24 @@ def reading(ref, cfg, codec, hexbm):
             if sub is None:
                 return None
             out.update(sub)
+        elif p == 'DE43' and isinstance(v, str):
+            sub = iu.ref_de43(v, c.get('field_processor_config'))
+            if sub is None:
+                out['?DE43'] = True          # a pattern without an independent reading: DE43_* entries not judged
+            else:
+                out.update(sub)
     return out
 
 
 def model_lines(case, io_):
     pre = '%s %s %s ' % (iu.cfg_text(case['cfg']), iu.hs(case['codec']), '1' if case['hex'] else '0')
-    return ['dumps ' + pre + case['msg']]
+    lines = ['dumps ' + pre + case['msg']]
+    try:
+        ref = iu.ref_wire(iu.dict_of_text(case['msg']), case['cfg'] if case['cfg'] is not None else iu.packaged(), case['codec'], case['hex'])
+        lines.append('loads ' + pre + (ref.hex() or '-'))
+    except iu.Refused:
+        pass
+    return lines
 
 
 def judge(case, io_, mo):
@@ -133,12 +145,18 @@ def judge(case, io_, mo):
         if not lo.startswith('OK '):
             ps.append({'kind': 'oracle', 'sig': 'layout-message-rejected', 'msg': 'a message of the documented layout is not decoded: %s' % lo})
         else:
-            got = {k: v for k, v in iu.dict_of_text(lo[3:]).items() if not k.startswith('DE43_')}
+            got = iu.dict_of_text(lo[3:])
+            if want.pop('?DE43', False):
+                got = {k: v for k, v in got.items() if not k.startswith('DE43_')}
             if got != want or any(type(got[k]) is not type(want[k]) for k in got):
                 bad = [k for k in set(got) | set(want) if got.get(k) != want.get(k)][:3]
                 ps.append({'kind': 'oracle', 'sig': 'decoded-differs-from-independent-reading', 'msg': 'keys %s differ from the independent reading' % bad})
     if mo is not None and not ps and not mo[0].startswith('UNMODELLED') and mo[0] != d:
         ps.append({'kind': 'corr', 'sig': 'dumps', 'msg': 'dumps differs from model: %s vs %s' % (d[:100], mo[0][:100])})
+    if mo is not None and not ps and len(mo) > 1 and not mo[1].startswith('UNMODELLED') and lo:
+        same = (mo[1] == lo) if not lo.startswith('OK ') else (mo[1].startswith('OK ') and iu.canon_entries(mo[1][3:]) == iu.canon_entries(lo[3:]))
+        if not same:
+            ps.append({'kind': 'corr', 'sig': 'loads', 'msg': 'loads of the reference bytes differs from model: %s vs %s' % (lo[:120], mo[1][:120])})
     return ps
 
 
